@@ -327,7 +327,17 @@ func child(seed uint64, n int, engine, mode, variant string) {
 			return m
 		}
 		if mode == "pair" {
-			// two instances in one runtime, calls interleaved: each must behave as if alone
+			// two instances in one runtime, calls interleaved: each must behave as if alone. Both come from ONE
+			// ModuleConfig value (a configuration is reusable); a third instance is made later from the same value,
+			// a fourth from a configuration derived from it after it has been used
+			cfg := wazero.NewModuleConfig()
+			inst = func() api.Module {
+				m, err := r.InstantiateWithConfig(ctx, bin, cfg)
+				if err != nil {
+					panic(err)
+				}
+				return m
+			}
 			m1, m2 := inst(), inst()
 			var t1, t2 []res
 			for _, cl := range calls {
@@ -337,6 +347,25 @@ func child(seed uint64, n int, engine, mode, variant string) {
 			el := time.Since(t0).Milliseconds()
 			out.Emit(line{T: "trace", Variant: variant + "1", Script: si, Trace: t1, Ms: el})
 			out.Emit(line{T: "trace", Variant: variant + "2", Script: si, Trace: t2, Ms: el})
+			{
+				t3 := time.Now()
+				m3 := inst()
+				var tr3 []res
+				for _, cl := range calls {
+					tr3 = append(tr3, exec1(ctx, m3, cl))
+				}
+				out.Emit(line{T: "trace", Variant: variant + "3", Script: si, Trace: tr3, Ms: time.Since(t3).Milliseconds()})
+				t4 := time.Now()
+				m4, err := r.InstantiateWithConfig(ctx, bin, cfg.WithName(""))
+				if err != nil {
+					panic(err)
+				}
+				var tr4 []res
+				for _, cl := range calls {
+					tr4 = append(tr4, exec1(ctx, m4, cl))
+				}
+				out.Emit(line{T: "trace", Variant: variant + "4", Script: si, Trace: tr4, Ms: time.Since(t4).Milliseconds()})
+			}
 		} else {
 			m := inst()
 			var t []res
